@@ -194,7 +194,7 @@ def _(self: Obj['rbql_csv.CSVRecordIterator']) -> Opt[List[Str]]:
 # ---------------------------------------------------------------- header handling (C09)
 @trusted('rbql_csv.encode_input_stream', trusted='A-IO: wrapping a byte stream into a decoding text stream (io.TextIOWrapper / codecs reader); its unread content is the decoded content of the file')
 def _(stream: Obj['io.TextStream'], encoding: Opt[Str]) -> Obj['io.TextStream']:
-    ensures(allocated(result), 'a_text_stream')
+    ensures(allocated(result) and (same(result, stream) or is_fresh(result)), 'the_stream_itself_or_a_new_wrapper')
 
 
 @contract('rbql_csv.CSVRecordIterator.__init__', name='C09.csv.init', props=['C09', 'C12'], store_policy='none')
@@ -211,7 +211,7 @@ def _(self: Obj['rbql_csv.CSVRecordIterator'], stream: Obj['io.TextStream'], enc
     ensures(implies(not line_mode and not is_none(self.first_record), self.NR == 1), 'first_record_counted')
     raises('rbql_engine.RbqlIOHandlingError', True, 'io_handling_error')
     raises('AssertionError', False, 'known_encoding')
-    modifies(self, anything())
+    modifies(self, stream, self.fields_info)
 
 
 @contract('rbql_csv.CSVRecordIterator.handle_query_modifier', name='C09.csv.modifier', props=['C09'])
@@ -237,3 +237,47 @@ def _(self: Obj['rbql_csv.CSVRecordIterator']) -> List[Str]:
     ensures(('Inconsistent double quote escaping in ' + self.table_name + ' table. E.g. at line ' + str_of_int(opt_val(self.first_defective_line)) in contents(result))
             == (not is_none(self.first_defective_line)), 'quoting_warning_iff_a_defective_line_was_seen')
     ensures(len(result) == (1 if self.utf8_bom_removed else 0) + (0 if is_none(self.first_defective_line) else 1) + (1 if len(keys(self.fields_info)) > 1 else 0), 'nothing_else')
+
+
+# ---------------------------------------------------------------- join files of the CSV front end (C15: every opened file is closed)
+classdef('io.TextStream', ghost=dict(closed=Bool))
+classdef('rbql_csv.FileSystemCSVRegistry', bases=['rbql_engine.RBQLTableRegistry'],
+         fields=dict(input_file_dir=Opt[Str], delim=Str, policy=Str, encoding=Opt[Str], record_iterator=Opt[Obj['rbql_csv.CSVRecordIterator']],
+                     input_stream=Opt[Obj['io.TextStream']], has_header=Bool, comment_prefix=Opt[Str], table_path=Opt[Str]))
+
+
+@trusted('builtins.open', trusted='A-IO: open() returns a new, open file object or raises OSError')
+def _(path: Str, mode: Str) -> Obj['io.TextStream']:
+    ensures(is_fresh(result) and allocated(result) and not result.closed, 'a_new_open_file')
+    raises('OSError', True, 'cannot_open')
+
+
+@trusted('io.TextStream.close', trusted='A-IO: close() closes the file object')
+def _(self: Obj['io.TextStream']):
+    ensures(self.closed, 'closed')
+    modifies(field(self, 'closed'))
+
+
+@trusted('rbql_csv.find_table_path', trusted='A-IO: file system lookup of a table id (os.path); bounded stand-in bounded/jobs_c13.py')
+def _(main_table_dir: Opt[Str], table_id: Str) -> Opt[Str]:
+    pass
+
+
+@contract('rbql_csv.FileSystemCSVRegistry.get_iterator_by_table_id', name='C15.registry.open', props=['C15'], store_policy='none')
+def _(self: Obj['rbql_csv.FileSystemCSVRegistry'], table_id: Str, single_char_alias: Str) -> Opt[Obj['rbql_csv.CSVRecordIterator']]:
+    requires(is_none(self.input_stream), 'no_join_file_open_yet')
+    requires(is_none(self.encoding) or opt_val(self.encoding) == 'utf-8' or opt_val(self.encoding) == 'latin-1', 'known_encoding')
+    requires(implies(self.policy != 'simple' and self.policy != 'whitespace' and self.policy != 'monocolumn', len(self.delim) == 1 and self.delim != '"'), 'single_char_delimiter_for_quoted_policies')
+    requires(implies(self.policy == 'simple', len(self.delim) >= 1), 'non_empty_delimiter')
+    # C15: the file that is opened is remembered in input_stream BEFORE anything can fail, so finish() can close it on every path
+    ensures(not is_none(result) and not is_none(self.input_stream) and is_fresh(opt_val(self.input_stream)), 'opened_file_is_remembered')
+    raises('rbql_engine.RbqlIOHandlingError', is_none(self.input_stream) or is_fresh(opt_val(self.input_stream)), 'nothing_opened_or_remembered')
+    raises('OSError', is_none(self.input_stream), 'nothing_opened')
+    modifies(self, anything())
+
+
+@contract('rbql_csv.FileSystemCSVRegistry.finish', name='C15.registry.finish', props=['C15'])
+def _(self: Obj['rbql_csv.FileSystemCSVRegistry']):
+    # C15: whatever join file was opened is closed
+    ensures(implies(not is_none(self.input_stream), opt_val(self.input_stream).closed), 'join_file_closed')
+    modifies(anything())
